@@ -288,6 +288,22 @@ def written_keys(fn, methods, seen=None, view=None):
             if d and d.startswith("self.") and d[5:] in methods and d[5:] not in NON_SETTERS:
                 for k, v in written_keys(methods[d[5:]], methods, seen, HelperView(view, st, methods[d[5:]])).items():
                     out.setdefault(k, []).extend(v)
+            # <dict>.update({"K": v, ...}) / <dict>.update(K=v): one store per key
+            if isinstance(st.func, ast.Attribute) and st.func.attr == "update":
+                probe = ast.Subscript(value=st.func.value, slice=ast.Constant(value="?"), ctx=ast.Store())
+                base, ks = key_chain(probe)
+                if base in DICTS and ks:
+                    pairs = []
+                    if len(st.args) == 1 and isinstance(st.args[0], ast.Dict):
+                        pairs += [(k_.value, v_) for k_, v_ in zip(st.args[0].keys, st.args[0].values)
+                                  if isinstance(k_, ast.Constant) and isinstance(k_.value, str)]
+                    pairs += [(k_.arg, k_.value) for k_ in st.keywords if k_.arg]
+                    cond = _conditional(st, fn)
+                    for k_, v_ in pairs:
+                        full = ".".join(ks[:-1] + [k_])
+                        out.setdefault(full, []).append((st, cond, _fold_none_tests(view.expr(v_))))
+                        for sub in _dict_subkeys(v_, fn, methods):
+                            out.setdefault(full + "." + sub, []).append((st, cond, None))
     return out
 
 
@@ -447,6 +463,12 @@ def analyse_setters(index, rep):
 
 def _writes_constants(st, methods):
     for n in ast.walk(st):
+        if isinstance(n, ast.Call) and isinstance(n.func, ast.Attribute) and n.func.attr in ("update", "setdefault", "pop"):
+            b = n.func.value
+            while isinstance(b, ast.Subscript):
+                b = b.value
+            if isinstance(b, ast.Name) and b.id in DICTS:
+                return True
         if isinstance(n, (ast.Assign, ast.AugAssign)):
             tgts = n.targets if isinstance(n, ast.Assign) else [n.target]
             for t in tgts:
@@ -476,6 +498,37 @@ def option_test(test, var="scenario_option_copy"):
             if k is not None and v is not None:
                 return k, v
     return None
+
+
+def table_helper(h):
+    """is `h` a table dispatcher - `for value, setter in <table param>: if <option param> == value: return setter(<arg param>)` followed by
+    the refusal?  -> (option parameter, table parameter, argument parameter, statements after the loop) or None"""
+    params = [a.arg for a in h.args.args if a.arg not in ("self", "cls")]
+    body = [s_ for s_ in h.body if not (isinstance(s_, ast.Expr) and isinstance(s_.value, ast.Constant))]
+    loops = [s_ for s_ in body if isinstance(s_, ast.For)]
+    if len(loops) != 1 or body.index(loops[0]) != 0:
+        return None
+    lp = loops[0]
+    if not (isinstance(lp.iter, ast.Name) and lp.iter.id in params and isinstance(lp.target, ast.Tuple) and len(lp.target.elts) == 2
+            and all(isinstance(e, ast.Name) for e in lp.target.elts) and len(lp.body) == 1 and isinstance(lp.body[0], ast.If) and not lp.body[0].orelse):
+        return None
+    vname, sname = lp.target.elts[0].id, lp.target.elts[1].id
+    t = lp.body[0].test
+    if not (isinstance(t, ast.Compare) and len(t.ops) == 1 and isinstance(t.ops[0], ast.Eq)):
+        return None
+    sides = [t.left, t.comparators[0]]
+    names = [x.id for x in sides if isinstance(x, ast.Name)]
+    if len(names) != 2 or vname not in names:
+        return None
+    p_opt = [n for n in names if n != vname][0]
+    ib = lp.body[0].body
+    if not (len(ib) == 1 and isinstance(ib[0], ast.Return) and isinstance(ib[0].value, ast.Call) and isinstance(ib[0].value.func, ast.Name)
+            and ib[0].value.func.id == sname and len(ib[0].value.args) == 1 and isinstance(ib[0].value.args[0], ast.Name) and not ib[0].value.keywords):
+        return None
+    p_arg = ib[0].value.args[0].id
+    if p_opt not in params or p_arg not in params:
+        return None
+    return p_opt, lp.iter.id, p_arg, body[1:]
 
 
 def dispatch(index, rep, sinfo):
@@ -526,6 +579,43 @@ def dispatch(index, rep, sinfo):
             break
         chains[key] = dict(arms=arms, else_block=else_block, node=st)
         order.append(key)
+    # the same dispatch written as a table: `cfp = self.<helper>(scenario_option_copy["key"], ((value, setter), ...), cfp, message)` where
+    # the helper applies the setter of the first pair whose value equals the option and otherwise refuses (its tail is the else branch)
+    from .core import Inliner as _Inl13, bind_args as _ba13
+    methods_run = index.methods(RUN, "ScenarioRunner")
+    inl_fn = _Inl13(fn)
+    for st in fn.body:
+        call = st.value if isinstance(st, (ast.Assign, ast.Expr)) and isinstance(st.value, ast.Call) else None
+        d = dotted(call.func) if call is not None else None
+        if not (d and d.startswith("self.") and d[5:] in methods_run):
+            continue
+        th = table_helper(methods_run[d[5:]])
+        if th is None:
+            continue
+        p_opt, p_tab, p_arg, tail = th
+        bound = _ba13(call, methods_run[d[5:]])
+        if p_opt not in bound or p_tab not in bound:
+            continue
+        o = bound[p_opt]
+        key = str_const(o.slice) if isinstance(o, ast.Subscript) and isinstance(o.value, ast.Name) and o.value.id == "scenario_option_copy" else None
+        tab = bound[p_tab] if isinstance(bound[p_tab], (ast.Tuple, ast.List)) else _Inl13(fn, max_depth=1).at(st).expr(bound[p_tab])
+        if key is None or not isinstance(tab, (ast.Tuple, ast.List)):
+            continue
+        arms = []
+        okt = True
+        for e in tab.elts:
+            if isinstance(e, (ast.Tuple, ast.List)) and len(e.elts) == 2 and str_const(e.elts[0]) is not None:
+                body = [ast.Expr(value=ast.Call(func=e.elts[1], args=[bound[p_arg]] if p_arg in bound else [], keywords=[]))]
+                arms.append((str_const(e.elts[0]), body, st))
+            else:
+                okt = False
+        if not okt or key in chains:
+            rep.violation(rule, f"option[{key}]:mixed-chain", "the dispatch table of this option is not a literal list of (value, setter) pairs, or the "
+                          "option is dispatched twice", loc=loc(RUN, st))
+            continue
+        chains[key] = dict(arms=arms, else_block=tail, node=st)
+        order.append(key)
+    order.sort(key=lambda k_: chains[k_]["node"].lineno)
     if len(chains) < 16:
         raise AnalysisError(f"set_depending_on_option: only {len(chains)} option chains recognised")
     accepted = {}
@@ -716,8 +806,8 @@ def effect(index, rep, sinfo, disp):
             sts = wk.get(k, [])
             vals = []
             for st, cond, v in sts:
-                v = v if v is not None else st.value
-                vals.append(v.value if isinstance(v, ast.Constant) else "<" + norm_src(v) + ">")
+                v = v if v is not None else getattr(st, "value", None)
+                vals.append(v.value if isinstance(v, ast.Constant) else ("<" + norm_src(v) + ">" if v is not None else "<?>"))
             ok = len(vals) >= 1 and all(v == lit and type(v) == type(lit) for v in vals)
             rep.check(ok, rule, f"stated[{key}={val}]:{k}",
                       f"the documentation states {k} = {lit!r} for {key}={val}; the setter {sname} writes {vals}",
